@@ -484,8 +484,20 @@ def diff_conclusions(run_events, canon_events, idx):
     return out
 
 
-def selftest(wd, trace_path, env):
+def selftest(wd, trace_paths, env):
     """Binding self-test: corrupt an accepted trace; every corruption must be refused."""
+    last = None
+    for tp in trace_paths:
+        try:
+            return selftest_on(wd, tp, env)
+        except vlib.ToolError as e:
+            last = e
+            if "no suitable history" not in str(e):
+                raise
+    raise last or vlib.ToolError("binding self-test: no accepted trace")
+
+
+def selftest_on(wd, trace_path, env):
     recs = [json.loads(x) for x in open(trace_path)]
     # keep the direct runs + the first history that has a buried role, an irreversible event and a
     # schedule other than the canonical one
@@ -643,7 +655,7 @@ def run(tier, seed):
     known = any(k.get("property") == PID and k.get("key") == KNOWN_KEY for k in vlib.load_known())
     env = {"C11_WAIVE": "1"} if known else {}
     nviol = total_events = total_runs = total_syncs = total_calls = panics = waived = 0
-    first_ok_trace, sample_scripts = None, []
+    first_ok_trace, sample_scripts, ok_traces = None, [], []
     hid = 0
     batches = plan.batches(900 if thorough else 700)
     for bi, hists in enumerate(batches):
@@ -668,8 +680,9 @@ def run(tier, seed):
         total_events += total
         out = open(os.path.join(wd, "tlc-trace-b%d1.out" % bi)).read() if known else ""
         waived += out.count('<<"WAIVED"')
-        if first_ok_trace is None and not fails:
-            first_ok_trace = tpath
+        if not fails:
+            ok_traces.append(tpath)
+            first_ok_trace = first_ok_trace or tpath
         by_run = None
         failed_runs = set()
         for fl in fails:
@@ -726,7 +739,7 @@ def run(tier, seed):
     if nviol == 0:
         if first_ok_trace is None:
             raise vlib.ToolError("no accepted batch to run the binding self-test on")
-        st = selftest(wd, first_ok_trace, env)
+        st = selftest(wd, ok_traces[::-1], env)
         vlib.log("[selftest] %s" % st)
 
     nsched = sum(len(h["scheds"]) for h in plan.hists.values())
